@@ -8,6 +8,7 @@ mod c01;
 mod c02;
 mod c03;
 mod c04;
+mod c05;
 mod c06;
 mod c08;
 mod c10;
@@ -33,6 +34,8 @@ fn main() {
         ("C02", "drive") => c02::drive(rest),
         ("C03", "drive") => c03::drive(rest),
         ("C04", "drive") => c04::drive(rest),
+        ("C05", "drive") => c05::drive_c05(rest),
+        ("C09", "drive") => c05::drive_c09(rest),
         ("C06", "drive") => c06::drive_c06(rest),
         ("C07", "drive") => c06::drive_c07(rest),
         ("C08", "drive") => c08::drive(rest),
